@@ -17,6 +17,14 @@ def build(profile="functional"):
     u.raw(CLONE_STACKFRAME, "glue")
     mp = u.source("src/mapper.rs")
     extract_struct_priv(u, mp, "MemberMapping")
+    extract_struct_priv(u, mp, "ClassMembers")
+    extract_struct_priv(u, mp, "ClassMapping")
+    extract_struct_priv(u, mp, "ProguardMapper")
+    ty = mp.item("type", "MemberIter")
+    u.emit(ty)
+    extract_struct_priv(u, mp, "RemappedFrameIter")
+    u.raw("use std::collections::HashMap;\n", "glue")
+    u.raw(contract("hash_specs.rs"), "hash_specs")
     u.raw(contract("model.rs"), "model")
     u.raw(contract("mapper_model.rs"), "mapper_model")
 
@@ -48,7 +56,29 @@ def build(profile="functional"):
                 && aframe(fr) == entry_out(abs_mm(*rem0[k]), aframe(*old(frame)))
                 && (*final(members)).remaining() == rem0.skip(k + 1),
             None => forall|j: int| 0 <= j < rem0.len() ==> !applies(abs_mm(*#[trigger] rem0[j]), line),
-          } }),""")
+          } }),
+        /*@L:step_of_retrace:C01,C02*/ ({ let es = abs_mms((*old(members)).remaining()); let f = aframe(*old(frame));
+          match ret {
+            Some(fr) => retrace(es, f).len() > 0 && aframe(fr) == retrace(es, f)[0]
+                && retrace(abs_mms((*final(members)).remaining()), f) == retrace(es, f).drop_first(),
+            None => retrace(es, f).len() == 0 && (*final(members)).remaining().len() == 0,
+          } }),
+        (*final(members)).obeys_prophetic_iter_laws(), (*final(members)).decrease() is Some,
+        wf_mms((*final(members)).remaining()),""")
+        f.insert_before("return Some(StackFrame", """proof {
+            let es = abs_mms(rem0);
+            assert forall|j: int| 0 <= j < n - 1 implies !applies(#[trigger] es[j], frame.line as int) by { assert(es[j] == abs_mm(*rem0[j])); }
+            assert(es[n - 1] == abs_mm(*rem0[n - 1]));
+            lemma_retrace_first(es, aframe(*frame), n - 1);
+            assert(abs_mms(rem0.skip(n)) == es.skip(n));
+        }
+        """)
+        f.before_tail("""proof {
+        let es = abs_mms(rem0);
+        assert forall|j: int| 0 <= j < es.len() implies !applies(#[trigger] es[j], frame.line as int) by { assert(es[j] == abs_mm(*rem0[j])); }
+        lemma_retrace_none(es, aframe(*frame));
+    }
+    """)
         inv_extra = """            wf_mms(rem0),
             frame.line < 0xffff_ffff,
             forall|j: int| 0 <= j < n ==> !applies(abs_mm(*#[trigger] rem0[j]), frame.line as int),"""
@@ -58,7 +88,8 @@ def build(profile="functional"):
         (*old(members)).obeys_prophetic_iter_laws(),
         (*old(members)).decrease() is Some,
     ensures
-        /*@L:frame_unchanged:C13*/ *final(frame) == *old(frame),""")
+        /*@L:frame_unchanged:C13*/ *final(frame) == *old(frame),
+        (*final(members)).obeys_prophetic_iter_laws(), (*final(members)).decrease() is Some,""")
         inv_extra = ""
     f.body_start("let ghost mut n: int = 0;\n    let ghost rem0 = members.remaining();\n    proof { assert(rem0.skip(0) == rem0); }\n")
     f.for_to_loop(
@@ -100,16 +131,150 @@ def build(profile="functional"):
                 && aframe(fr) == entry_out_params(abs_mm(*rem0[0]), aframe(*old(frame)))
                 && (*final(members)).remaining() == rem0.skip(1),
             None => rem0.len() == 0,
-          } }),""")
+          } }),
+        (*final(members)).obeys_prophetic_iter_laws() == (*old(members)).obeys_prophetic_iter_laws(),
+        (*final(members)).decrease() is Some == (*old(members)).decrease() is Some,
+        wf_mms((*old(members)).remaining()) ==> wf_mms((*final(members)).remaining()),""")
         g.body_start("let ghost rem0 = members.remaining();\n")
         g.insert_after("let member = members.next()?;", "\n    proof { assert(rem0.drop_first() == rem0.skip(1)); }")
     else:
         g.props_all = ["C13"]
         g.contract("""    requires
-        (*old(members)).obeys_prophetic_iter_laws(),
+        (*old(members)).obeys_prophetic_iter_laws(), (*old(members)).decrease() is Some,
     ensures
-        /*@L:frame_unchanged:C13*/ *final(frame) == *old(frame),""")
+        /*@L:frame_unchanged:C13*/ *final(frame) == *old(frame),
+        (*final(members)).obeys_prophetic_iter_laws(), (*final(members)).decrease() is Some,""")
     u.emit(g)
 
+    HASH = "proof { axiom_str_key_model(); }\n        broadcast use axiom_str_borrowed_key, axiom_str_borrowed_value, axiom_str_ext;\n"
+    # =================== RemappedFrameIter ===================
+    IT = r"impl<'m> RemappedFrameIter<'m>"
+    u.raw(mp.impl_header(IT) + "{\n", "glue")
+    e = mp.impl_fn(IT, "empty")
+    e.ret("ret")
+    e.props_all = ["C01", "C02", "C03", "C13"]
+    e.contract("    ensures /*@L:empty_iter:C01,C02,C03,C13*/ ret.inner is None,")
+    u.emit(e)
+    mfn = mp.impl_fn(IT, "members")
+    mfn.ret("ret")
+    mfn.props_all = ["C01", "C02", "C03", "C13"]
+    mfn.contract("    ensures /*@L:members_iter:C01,C02,C03,C13*/ ret.inner == Some((frame, members)),")
+    u.emit(mfn)
+    ITI = r"impl<'m> Iterator for RemappedFrameIter<'m>"
+    nx = mp.impl_fn(ITI, "next")
+    nx.replace("Self::Item", "StackFrame<'m>", "R8", why="trait method verified as inherent method: associated type spelled out")
+    nx.ret("ret")
+    nx.props_safety = ["C13"]
+    nx.props_all = ["C01", "C02", "C03"] if fun else ["C13"]
+    if fun:
+        nx.contract("""    requires mit_wf(*old(self)),
+    ensures
+        mit_wf(*final(self)),
+        /*@L:next_is_head_of_answers:C01,C02,C03*/ match ret {
+            Some(fr) => mit_answers(*old(self)).len() > 0 && aframe(fr) == mit_answers(*old(self))[0]
+                && mit_answers(*final(self)) == mit_answers(*old(self)).drop_first(),
+            None => mit_answers(*old(self)).len() == 0,
+        },""")
+    else:
+        nx.contract("""    requires match old(self).inner { None => true, Some((frame, members)) => members.obeys_prophetic_iter_laws() && members.decrease() is Some },
+    ensures match final(self).inner { None => true, Some((frame, members)) => members.obeys_prophetic_iter_laws() && members.decrease() is Some },""")
+    u.emit(nx)
+    u.raw("}\n", "glue")
+
+    # =================== impl ProguardMapper ===================
+    PM = r"impl<'s> ProguardMapper<'s>"
+    u.raw(mp.impl_header(PM) + "{\n", "glue")
+    # ---------------- remap_class ----------------
+    rc = mp.impl_fn(PM, "remap_class")
+    rc.ret("ret")
+    rc.props_safety = ["C13"]
+    rc.props_all = ["C04", "C02"] if fun else ["C13"]
+    rc.closure("|class|", params="|class: &'s ClassMapping<'s>|", ret="r: &'s str", spec="ensures r == ({body})")
+    rc.body_start(HASH)
+    if fun:
+        rc.contract("""    ensures
+        /*@L:remap_class_exact:C04,C02*/ match ret {
+            Some(s) => exists|k: &str| #[trigger] self.classes@.contains_key(k) && k@ == class@ && self.classes@[k].original == s,
+            None => no_key(self.classes@, class@),
+        },""")
+    else:
+        rc.contract("    ensures true,")
+    u.emit(rc)
+
+    # ---------------- remap_method ----------------
+    rm = mp.impl_fn(PM, "remap_method")
+    rm.ret("ret")
+    rm.props_safety = ["C13"]
+    rm.props_all = ["C04", "C02"] if fun else ["C13"]
+    rm.closure("|member|", params="|member: &MemberMapping<'s>|", ret="b: bool", spec="ensures b == (member.original@ == first.original@)")
+    rm.body_start(HASH)
+    if fun:
+        rm.contract("""    ensures
+        /*@L:method_iff_unanimous:C04,C02*/ match ret {
+            Some((oc, om)) => exists|ck: &str, mk: &str| #[trigger] self.classes@.contains_key(ck) && ck@ == class@
+                && #[trigger] self.classes@[ck].members@.contains_key(mk) && mk@ == method@
+                && oc == self.classes@[ck].original
+                && ({ let v = self.classes@[ck].members@[mk].all_mappings@;
+                      v.len() > 0 && forall|k: int| 0 <= k < v.len() ==> (#[trigger] v[k]).original@ == om@ }),
+            None => no_key(self.classes@, class@) || (exists|ck: &str| #[trigger] self.classes@.contains_key(ck) && ck@ == class@
+                && (no_key(self.classes@[ck].members@, method@) || (exists|mk: &str| #[trigger] self.classes@[ck].members@.contains_key(mk) && mk@ == method@
+                    && ({ let v = self.classes@[ck].members@[mk].all_mappings@;
+                          v.len() == 0 || exists|k1: int, k2: int| 0 <= k1 < v.len() && 0 <= k2 < v.len() && (#[trigger] v[k1]).original@ != (#[trigger] v[k2]).original@ })))),
+        },""")
+        rm.body_start("let ghost cname = class@;\n")
+        rm.after_stmt("let class = self.classes.get(", """        let ghost ck = choose|ck: &str| #[trigger] self.classes@.contains_key(ck) && ck@ == cname && self.classes@[ck] == *class;
+""")
+        rm.after_stmt("let mut members = class.members.get(", """        let ghost v = members.remaining();
+        let ghost mk = choose|mk: &str| #[trigger] class.members@.contains_key(mk) && mk@ == method@ && v == class.members@[mk].all_mappings@.as_ref();
+        let ghost vv = class.members@[mk].all_mappings@;
+        proof { assert(forall|j: int| 0 <= j < vv.len() ==> *#[trigger] v[j] == vv[j]); }
+""")
+        rm.before_tail("""proof {
+            assert(self.classes@.contains_key(ck) && self.classes@[ck].members@.contains_key(mk));
+            if all_matching {
+                assert forall|k: int| 0 <= k < vv.len() implies (#[trigger] vv[k]).original@ == first.original@ by {
+                    if k > 0 { assert(*rem1[k - 1] == vv[k]); }
+                }
+            } else {
+                let idx = choose|idx: int| 0 <= idx < rem1.len() && rem1[idx].original@ != first.original@;
+                assert(vv[idx + 1] == *rem1[idx]);
+                assert(vv[idx + 1].original@ != vv[0].original@);
+            }
+        }
+        """)
+        rm.after_stmt("let first = members.next()", """        let ghost rem1 = members.remaining();
+        proof { assert(*first == *v[0]); assert(forall|j: int| 0 <= j < rem1.len() ==> *#[trigger] rem1[j] == *v[j + 1]); }
+""")
+    else:
+        rm.contract("    ensures true,")
+    u.emit(rm)
+
+    # ---------------- remap_frame ----------------
+    rf = mp.impl_fn(PM, "remap_frame")
+    rf.ret("ret")
+    rf.props_safety = ["C13"]
+    rf.props_all = ["C01", "C02", "C03"] if fun else ["C13"]
+    rf.body_start(HASH)
+    if fun:
+        rf.contract("""    requires wf_mapper(*self), frame.line < 0xffff_ffff,
+    ensures
+        mit_wf(ret),
+        /*@L:unknown_class_no_frames:C01,C02,C03*/ no_key(self.classes@, frame.class@) ==> ret.inner is None,
+        /*@L:exact_entry_list:C01,C02,C03*/ forall|ck: &str| #[trigger] self.classes@.contains_key(ck) && ck@ == frame.class@ ==> ({
+            let cm = self.classes@[ck];
+            &&& (no_key(cm.members@, frame.method@) ==> ret.inner is None)
+            &&& (ret.inner is Some ==> aframe(ret.inner.unwrap().0) == (AFrame { class: cm.original@, ..aframe(*frame) }))
+            &&& (forall|mk: &str| #[trigger] cm.members@.contains_key(mk) && mk@ == frame.method@ ==>
+                    match frame.parameters {
+                        None => mit_members(ret) == cm.members@[mk].all_mappings@,
+                        Some(ps) => (no_key(cm.members@[mk].mappings_by_params@, ps@) ==> ret.inner is None)
+                            && (forall|pk: &str| #[trigger] cm.members@[mk].mappings_by_params@.contains_key(pk) && pk@ == ps@ ==>
+                                    mit_members(ret) == cm.members@[mk].mappings_by_params@[pk]@),
+                    })
+        }),""")
+    else:
+        rf.contract("""    ensures match ret.inner { None => true, Some((frame, members)) => members.obeys_prophetic_iter_laws() && members.decrease() is Some },""")
+    u.emit(rf)
+    u.raw("}\n", "glue")
     u.raw(FOOTER, "footer")
     return u
